@@ -157,6 +157,9 @@ def c17_item(res, item):
         c17_cdf(res, [item["x"]])
     else:
         c17_points(res, [(item["x"], item["t"])])
+        import exact
+        fns = [item["fn"]] if item.get("fn") in ("v", "w", "vt", "wt") else ["v", "w", "vt", "wt"]
+        exact.exact_leaf_points(res, [(fn, item["x"], item["t"]) for fn in fns], "C17 code-shaped leaves")
 
 
 def c17_oracle_selfcheck(res, rng):
@@ -181,6 +184,11 @@ def c17(res):
         res.case(dict(x=p[0], t=p[1]))
     res.evaluations = len(pts)
     c17_points(res, pts)
+    # tier B-exact: common.py's v, w, vt, wt traced operation by operation against the code-shaped Lean leaves (guards, asymptotes
+    # and branch choices included), both on 192-bit floats
+    import exact
+    sub = pts[:: max(1, len(pts) // core.size(res, 120, 400))]
+    exact.exact_leaf_points(res, [(fn, p[0], p[1]) for p in sub for fn in ("v", "w", "vt", "wt")], "C17 code-shaped leaves")
     step = 0.05 if res.tier == "quick" else 0.002
     n = int(75.5 / step)
     xs = [min(38.0, -37.5 + i * step + rng.uniform(0, step)) for i in range(n) if i % res.nshards == res.shard] + [-37.5, 38.0, 0.0, -8.3, -5.0]
